@@ -50,6 +50,9 @@ pub struct ShapeWriter<T: Write + Seek> {
     header: header::Header,
     rec_num: u32,
     dirty: bool,
+    /// A `finalize` started and did not complete: the destinations may be
+    /// positioned inside their headers instead of at their end.
+    finalize_interrupted: bool,
 }
 
 impl<T: Write + Seek> ShapeWriter<T> {
@@ -63,6 +66,7 @@ impl<T: Write + Seek> ShapeWriter<T> {
             header: header::Header::default(),
             rec_num: 1,
             dirty: true,
+            finalize_interrupted: false,
         }
     }
 
@@ -73,6 +77,7 @@ impl<T: Write + Seek> ShapeWriter<T> {
             header: Default::default(),
             rec_num: 1,
             dirty: true,
+            finalize_interrupted: false,
         }
     }
 
@@ -127,6 +132,15 @@ impl<T: Write + Seek> ShapeWriter<T> {
             _ => {}
         }
 
+        if self.finalize_interrupted {
+            // The failed `finalize` left the destinations where it stopped:
+            // records and index entries are appended at the end.
+            self.shp_dest.seek(SeekFrom::End(0))?;
+            if let Some(shx_dest) = &mut self.shx_dest {
+                shx_dest.seek(SeekFrom::End(0))?;
+            }
+        }
+
         let record_size = (shape.size_in_bytes() + std::mem::size_of::<i32>()) / 2;
 
         RecordHeader {
@@ -149,6 +163,7 @@ impl<T: Write + Seek> ShapeWriter<T> {
         self.header.bbox.grow_from_shape(shape);
         self.rec_num += 1;
         self.dirty = true;
+        self.finalize_interrupted = false;
 
         Ok(())
     }
@@ -200,6 +215,7 @@ impl<T: Write + Seek> ShapeWriter<T> {
         if !self.dirty {
             return Ok(());
         }
+        self.finalize_interrupted = true;
 
         // The sentinels of untouched ranges are replaced in the header that is
         // written, not in the one that keeps growing with later writes.
@@ -231,6 +247,7 @@ impl<T: Write + Seek> ShapeWriter<T> {
             shx_dest.flush()?;
         }
         self.dirty = false;
+        self.finalize_interrupted = false;
         Ok(())
     }
 }
